@@ -88,6 +88,8 @@ impl EdgeLocate for OpenIntersectGap {
         let mut iterations = 0;
 
         while drift > af_tol {
+            #[cfg(feature = "verif")]
+            crate::verif_hooks::tick("edges::open_intersect_gap");
             let end_sp = working_stations.end_sp()?;
             let max_dist = end_sp
                 .scalar_projection(&end_cap.a)
@@ -312,6 +314,8 @@ impl EdgeLocate for FitRadiusEdge {
         let mut iterations = 0;
 
         while iterations < 1000 {
+            #[cfg(feature = "verif")]
+            crate::verif_hooks::tick("edges::fit_radius_edge");
             // We're going to keep on advancing until what's left is all within the tolerance of the
             // last inscribed circle.
             let station = working_stations
